@@ -224,6 +224,21 @@ pub fn mse<S: Source>(s: &mut S, d: &[usize]) {
     forget((o, t, c));
 }
 
+/// cross-entropy of an unbatched sample: the layer's output is `[1,n]`, the target `[n]`; the
+/// divisor is the output's leading dimension (1)
+pub fn cross_entropy_unbatched<S: Source>(s: &mut S, n: usize) {
+    let o = mk(s, &[1, n], Dom::Pos);
+    let t = mk(s, &[n], Dom::D2);
+    let c = (cost::cross_entropy())(&o, &t);
+    chk!(dims_eq(c.dimensions(), &[1, n]), "[c15:ce-dims] cost array dimensions");
+    for i in 0..n {
+        let e = -t.values()[i] * o.values()[i].ln();
+        chk!(same(c.values()[i], e, true), "[c15:cross-entropy] element is not -target * ln(output) / leading dimension");
+    }
+    witness();
+    forget((o, t, c));
+}
+
 /// cross-entropy = -target * ln(output) / leading dimension
 pub fn cross_entropy<S: Source>(s: &mut S, d: &[usize]) {
     let o = mk(s, d, Dom::Pos);
